@@ -2344,7 +2344,7 @@ func init() {
 	})
 	register(&Rule{
 		ID:    "C07.fresh",
-		Props: []string{"C07"},
+		Props: []string{"C07", "C08"},
 		Doc:   "every member of a TWKB GeometryCollection is written from a clean state: in writeGeometryCollection the writer on which writeGeometry is called for a member is created inside the member loop, or — when one writer is reused — it is reset in the loop by a helper that clears every 'sticky' flag of the writer (a field whose only stores outside constructors set it to one non-zero constant, like isEmpty / bboxValid: once set it stays set, so state leaks from one member to the next and later members get the wrong headers)",
 		Floor: 1,
 		Run:   runC07Fresh,
@@ -2481,10 +2481,27 @@ func stickyFlags(c *Ctx, typeName string, skip map[*ssa.Function]bool) []string 
 }
 
 func runC07Fresh(c *Ctx) {
-	f := c.P.Func("geom.(*twkbWriter).writeGeometryCollection")
+	runFreshPerMember(c, "twkbWriter", "geom.(*twkbWriter).writeGeometryCollection", []string{"geom.(*twkbWriter).writeGeometry", "geom.(*twkbWriter).writeGeometryByType"}, "writer", "written")
+	// the decoder mirrors it: one sub-parser per member
+	runFreshPerMember(c, "twkbParser", "geom.(*twkbParser).nextGeometryCollection", []string{"geom.(*twkbParser).parseGeometry", "geom.(*twkbParser).nextGeometry"}, "parser", "parsed")
+}
+
+// runFreshPerMember: in the collection routine collFn of typeName, the object on
+// which a member routine is called inside the member loop is created per member,
+// or reset by a helper that clears every sticky flag of the type.
+func runFreshPerMember(c *Ctx, typeName, collFn string, memberFns []string, noun, verb string) {
+	f := c.P.Func(collFn)
 	if f == nil {
-		c.Errorf("anchor geom.(*twkbWriter).writeGeometryCollection does not resolve")
+		c.Errorf("anchor %s does not resolve", collFn)
 		return
+	}
+	isMember := func(cal *ssa.Function) bool {
+		for _, m := range memberFns {
+			if cal != nil && FuncName(cal) == m {
+				return true
+			}
+		}
+		return false
 	}
 	fn := FuncName(f)
 	n := 0
@@ -2492,7 +2509,7 @@ func runC07Fresh(c *Ctx) {
 		cal := staticCallee(ci)
 		// the member write: writeGeometry, or its type dispatch called directly (whether the
 		// member's own headers are then written is C07.formed's question)
-		if cal == nil || (FuncName(cal) != "geom.(*twkbWriter).writeGeometry" && FuncName(cal) != "geom.(*twkbWriter).writeGeometryByType") {
+		if !isMember(cal) {
 			return
 		}
 		n++
@@ -2505,18 +2522,23 @@ func runC07Fresh(c *Ctx) {
 				}
 			}
 		}
-		construct := "writer of a member"
+		construct := noun + " of a member"
 		if loop == nil {
 			c.Undecided(ci.Pos(), fn, construct, "the member is not written inside a loop; the shape of the routine is unknown to this rule")
 			return
 		}
 		if recv == f.Params[0] {
-			c.Bad(ci.Pos(), fn, construct, "the member is written with the collection's own writer: its reference point, headers and flags are shared with the parent")
+			c.Bad(ci.Pos(), fn, construct, "the member is "+verb+" with the collection's own "+noun+": its reference point, headers and flags are shared with the parent")
 			return
 		}
 		if in, ok := recv.(ssa.Instruction); ok && loop[in.Block()] {
 			if call, ok := recv.(*ssa.Call); ok {
 				c.OK(ci.Pos(), fn, construct, "created inside the member loop by "+calleeName(call))
+				return
+			}
+			// a variable declared inside the loop body: a new one for every member
+			if _, ok := recv.(*ssa.Alloc); ok {
+				c.OK(ci.Pos(), fn, construct, "a variable declared inside the member loop (a new one for every member)")
 				return
 			}
 		}
@@ -2532,10 +2554,10 @@ func runC07Fresh(c *Ctx) {
 			}
 		}
 		if reset == nil {
-			c.Bad(ci.Pos(), fn, construct, "one writer is reused for every member and never returned to a clean state inside the loop: the reference point, buffers and flags of one member leak into the next")
+			c.Bad(ci.Pos(), fn, construct, "one "+noun+" is reused for every member and never returned to a clean state inside the loop: the reference point, buffers and flags of one member leak into the next")
 			return
 		}
-		sticky := stickyFlags(c, "twkbWriter", map[*ssa.Function]bool{reset: true})
+		sticky := stickyFlags(c, typeName, map[*ssa.Function]bool{reset: true})
 		cleared := map[string]bool{}
 		eachInstr(reset, func(in ssa.Instruction) {
 			if st, ok := in.(*ssa.Store); ok {
@@ -2558,7 +2580,7 @@ func runC07Fresh(c *Ctx) {
 			}
 		}
 		c.Check(len(missing) == 0, ci.Pos(), fn, construct, fmt.Sprintf("reused, and reset by %s which clears every sticky flag %v", FuncName(reset), sticky),
-			fmt.Sprintf("one writer is reused and reset by %s, which does not clear %v: once a member has set it, it stays set for every later member (e.g. the size header of the members after an empty one is left out)", FuncName(reset), missing))
+			fmt.Sprintf("one %s is reused and reset by %s, which does not clear %v: once a member has set it, it stays set for every later member (a flag announced by one member's header is applied to the members after it)", noun, FuncName(reset), missing))
 	})
 	if n < 1 {
 		// the per-member step may have been split off into a helper that is called from the member loop
@@ -2569,12 +2591,12 @@ func runC07Fresh(c *Ctx) {
 			}
 			eachCall(h, func(ci2 ssa.CallInstruction) {
 				cal := staticCallee(ci2)
-				if cal == nil || FuncName(cal) != "geom.(*twkbWriter).writeGeometry" {
+				if !isMember(cal) {
 					return
 				}
 				n++
 				recv := ci2.Common().Args[0]
-				construct := "writer of a member"
+				construct := noun + " of a member"
 				if call, ok := recv.(*ssa.Call); ok && recv != ssa.Value(h.Params[0]) {
 					c.OK(ci2.Pos(), fn, construct, "created per member in the helper "+FuncName(h)+" by "+calleeName(call))
 					return
@@ -2584,7 +2606,7 @@ func runC07Fresh(c *Ctx) {
 		})
 	}
 	if n < 1 {
-		c.Errorf("writeGeometryCollection does not call writeGeometry")
+		c.Errorf("%s does not call %v", collFn, memberFns)
 	}
 }
 
@@ -3066,7 +3088,7 @@ func init() {
 			}
 			return false
 		}, map[string]string{"geom.ringIsNestedInRing": "reviewed: vertices of the inner ring that lie ON the outer ring are inconclusive and skipped; the first vertex strictly inside or outside decides (both answers inside the loop are by design, and rings of a valid polygon cannot disagree)"})
-	registerQuantRule("C20.quantifier", []string{"C20", "C14", "C17"}, general+"IsEmpty of the collection types (empty iff every member is empty) and IsCW / IsCCW of Polygon, MultiPolygon and GeometryCollection (true iff every ring / member is)", 3,
+	registerQuantRule("C20.quantifier", []string{"C20", "C14", "C17", "C12"}, general+"IsEmpty of the collection types (empty iff every member is empty) and IsCW / IsCCW of Polygon, MultiPolygon and GeometryCollection (true iff every ring / member is)", 3,
 		func(c *Ctx, f *ssa.Function) bool {
 			r := rootFunc(f)
 			switch r.Name() {
@@ -3965,7 +3987,7 @@ var loopsFromOne = map[string]string{
 func init() {
 	register(&Rule{
 		ID:    "C20.fullrange",
-		Props: []string{"C20", "C03", "C09", "C01", "C16"},
+		Props: []string{"C20", "C03", "C09", "C01", "C16", "C17"},
 		Doc:   "loops over the elements of a geometry start at the first element: every counting loop (i := c; …; i++) in geom, rtree and carto starts at 0 (a `for range` at its hidden -1), except the reviewed loops that start at 1 for a stated reason (they pair element i with i-1, or treat element 0 before the loop) — and those start at exactly 1. A loop that quietly starts at 1 (or 2) skips the first point, segment, ring or member: the verdict of a validation, an intersection test or a conversion then ignores it",
 		Floor: 60,
 		Run:   runC20FullRange,
@@ -4047,7 +4069,7 @@ func runC20FullRange(c *Ctx) {
 				c.OK(pos, FuncName(f), construct, fmt.Sprintf("starts at %d and pairs element i with element i-%d", init, init))
 				continue
 			}
-			if init == 1 && firstElementReadBefore(cl.h) {
+			if init == 1 && firstElementReadBefore(cl.h) && !counterIndexesFromZero(cl) {
 				c.OK(pos, FuncName(f), construct, "starts at 1 after element 0 has been read on its own before the loop")
 				continue
 			}
@@ -4354,6 +4376,33 @@ func everAccumulated(v ssa.Value) bool {
 	}
 	count(al)
 	return stores > 0
+}
+
+// counterIndexesFromZero: inside the loop the counter itself (not counter-1) is
+// handed to InteriorRingN, whose numbering starts at 0 with the first hole:
+// having read the exterior ring before the loop does not excuse starting at 1.
+func counterIndexesFromZero(cl countLoop) bool {
+	found := false
+	for b := range cl.loop {
+		for _, in := range b.Instrs {
+			call, ok := in.(*ssa.Call)
+			if !ok {
+				continue
+			}
+			cal := staticCallee(call)
+			if cal == nil || cal.Name() != "InteriorRingN" || len(call.Call.Args) != 2 {
+				continue
+			}
+			a := call.Call.Args[1]
+			if cl.phi != nil && a == ssa.Value(cl.phi) {
+				found = true
+			}
+			if ld, ok := a.(*ssa.UnOp); ok && cl.cell != nil && ld.Op == token.MUL && ld.X == ssa.Value(cl.cell) {
+				found = true
+			}
+		}
+	}
+	return found
 }
 
 // firstElementReadBefore: a block dominating the loop header reads element 0 of something
